@@ -239,10 +239,19 @@ def perm_part(run):
         cfg = Util.normalize_config({'id': 'u', 'xforms': ', '.join(ops_txt)})
         # walk the chain on the implementation one transform at a time (oracle needs the intermediate frames)
         cur = frame
+        failed = False
         case = dict(image=[w, h, fmt], pixels=rows_of(img), xforms=ops_txt)
         for xf, txt in zip(cfg.xforms, ops_txt):
             before = cur
-            cur = UTIL.execute_xforms(adict(topic='main', frame=cur, xforms=[xf])).frame
+            try:
+                cur = UTIL.execute_xforms(adict(topic='main', frame=cur, xforms=[xf])).frame
+                _ = cur.image
+            except Exception as e:      # noqa: no valid image makes a transform fail
+                run.violation('perm:raises %s after %s (%s)' % (xf.action, ', '.join(x.split(' ')[0] for x in ops_txt[:ops_txt.index(txt)]) or '-', type(e).__name__),
+                              'transform %r raised %r on a %dx%d %s image (%s)' % (txt, e, before.width, before.height, before.format,
+                                                                                     'writable' if before.image.flags.writeable else 'read-only'), case)
+                failed = True
+                break
             a, b = before.image, cur.image
             act = xf.action
             run.count('perm:%s' % act)
@@ -292,6 +301,8 @@ def perm_part(run):
                 ops_lit.append({'flipx': 'XFlipx', 'flipy': 'XFlipy', 'flipboth': 'XFlipboth', 'rotcw': 'XRotcw',
                                 'rotccw': 'XRotccw', 'swaprgb': 'XSwap', 'fmtrgb': 'XRgb', 'fmtbgr': 'XBgr',
                                 'fmtgray': 'XGray'}[act])
+        if failed:
+            continue
         # the same chain through the filter's own entry point: Util.setup + Util.process on a frame set (two topics carrying the
         # image) must give, on every topic, what the transforms give when applied one after the other
         try:
